@@ -511,8 +511,13 @@ mod full {
     #[no_mangle]
     pub unsafe extern "C" fn recvmsg(fd: c_int, msg: *mut libc::msghdr, flags: c_int) -> ssize_t {
         let offered = iov_total(msg);
+        // the kernel overwrites these in/out fields: keep them for a possible re-issue
+        let (ctl_len, name_len) = if msg.is_null() { (0, 0) } else { ((*msg).msg_controllen, (*msg).msg_namelen) };
         let mut r = libc::syscall(libc::SYS_recvmsg, fd, msg, flags) as ssize_t;
         if r == 0 && offered > 0 && flags & libc::MSG_PEEK == 0 && eof_race_data_pending(fd) {
+            (*msg).msg_controllen = ctl_len;
+            (*msg).msg_namelen = name_len;
+            (*msg).msg_flags = 0;
             r = libc::syscall(libc::SYS_recvmsg, fd, msg, flags) as ssize_t;
         }
         if r >= 0 {
